@@ -507,6 +507,14 @@ def inputs(ctx):
             t1 = rng.choice([0.0, 0.001, 0.05, _harvest_t1(P, rng)])
             t2 = rng.randint(t2min, 6)
             items.append(("c%d-%s" % (ci, det), P.tolist(), det, t1, t2))
+    # tiny-alphabet family (seed round 18): EVERY 5-point curve with ordinates in {0..5} (non-monotone ones included) through Kneedle -
+    # exact ties in the difference curve, also between the two end points, which random curves hit about once in 24000
+    import itertools
+    x5 = np.arange(5, dtype=float)
+    for yi, y in enumerate(itertools.product(range(6), repeat=5)):
+        if len(set(y)) < 2:
+            continue
+        items.append(("a%d-kneedle" % yi, np.column_stack([x5, np.array(y, float)]).tolist(), "kneedle", 0.0, 3))
     return items
 
 
